@@ -39,6 +39,7 @@ RULES = {
     "C13-T7": "program data that breaks off after a comma (`1,` / `'a',`) is distinguishable from absent program data: the unit must not be dispatched as if it had no parameters",
     "C13-T6": "parser level: scpiParser_parseProgramData / parseAllProgramData report exactly the number of bytes their recognisers consumed (white space included), on every path",
     "C13-T8": "after a sub-recogniser that can fail with the cursor moved reported failure, the caller restores the cursor on every path before it measures the token",
+    "C13-T9": "compound header shape (488.2 7.6.1.2): the decision table of the header skipper over the outcomes of its colon and mnemonic helpers is [:] mnemonic (: mnemonic)*, a colon that no mnemonic follows is an INCOMPLETE header wherever it stands, and the helpers are consulted in that order",
     "C13-T4": "character classes of predicate helpers and of every advance guard equal the 488.2 classes (computed over all 256 byte values)",
 }
 
@@ -731,6 +732,114 @@ def rule_t6(ck, prog):
             ck.anchor_lost("C13-T6", "return of %s" % fname)
 
 
+def _compound_spec(colons, mnems):
+    """(sign of the result, helper calls in order) for 488.2's [:] mnemonic (: mnemonic)* given the helpers' outcomes;
+    None when the script is used up (beyond the bound)"""
+    calls = []
+    ci = mi = 0
+
+    def colon():
+        nonlocal ci
+        if ci >= len(colons):
+            raise IndexError
+        calls.append("colon")
+        ci += 1
+        return colons[ci - 1]
+
+    def mnem():
+        nonlocal mi
+        if mi >= len(mnems):
+            raise IndexError
+        calls.append("mnemonic")
+        mi += 1
+        return mnems[mi - 1]
+    try:
+        first = colon()
+        m = mnem()
+        if m == 0:
+            return (-1 if first else 0), calls
+        if m < 0:
+            return 1, calls           # the mnemonic runs up to the end of input: a complete header so far
+        while True:
+            if not colon():
+                return 1, calls
+            m = mnem()
+            if m < 0:
+                return 1, calls
+            if m == 0:
+                return -1, calls      # a colon that no mnemonic follows
+    except IndexError:
+        return None
+
+
+def rule_t9(ck, prog, tier):
+    from sa import interp as I
+    import itertools
+    f = prog.fn("skipCompoundProgramHeader")
+    if f is None:
+        ck.anchor_lost("C13-T9", "skipCompoundProgramHeader")
+        return
+    ck.analysed(f)
+    st = K.site(f, "header-shape", 0)
+    depth = 4 if tier == "thorough" else 3
+    rows = {}
+    bad = None
+    stuck = None
+    for colons in itertools.product((0, 1), repeat=depth):
+        for mnems in itertools.product((-2, -1, 0, 1, 3), repeat=depth):
+            want = _compound_spec(colons, mnems)
+            if want is None:
+                continue
+            key = (tuple(colons[:want[1].count("colon")]), tuple(mnems[:want[1].count("mnemonic")]))
+            if key in rows:
+                continue
+            ci, mi, calls = [0], [0], []
+
+            def colon(m_, a_, ci=ci, calls=calls, colons=colons):
+                if ci[0] >= len(colons):
+                    raise I.Stuck("beyond the script")
+                calls.append("colon")
+                ci[0] += 1
+                return colons[ci[0] - 1]
+
+            def chr_(m_, a_, colon=colon):
+                if len(a_) < 2 or a_[1] != ord(":"):
+                    raise I.Stuck("skipChr for another character")
+                return colon(m_, a_)
+
+            def mnem(m_, a_, mi=mi, calls=calls, mnems=mnems):
+                if mi[0] >= len(mnems):
+                    raise I.Stuck("beyond the script")
+                calls.append("mnemonic")
+                mi[0] += 1
+                return mnems[mi[0] - 1]
+            try:
+                got, _log = I.call(prog, f.name, [I.TOP], effects={"skipColon": colon, "skipChr": chr_, "skipProgramMnemonic": mnem},
+                                   max_steps=20000)
+            except I.Stuck as e:
+                stuck = stuck or str(e)
+                continue
+            if I.unk(got):
+                stuck = stuck or "the result is not determined by the helpers' outcomes"
+                continue
+            sign = (got > 0) - (got < 0)
+            rows[key] = sign
+            if (sign, calls) != (want[0], want[1]) and bad is None:
+                bad = (key, sign, calls, want)
+    names = {1: "a complete header", 0: "no header", -1: "an incomplete header"}
+    if bad:
+        key, sign, calls, want = bad
+        ck.violated("C13-T9", st, K.loc(f),
+                    "with leading colon %s and the mnemonic/colon outcomes %s / %s the skipper reports %s after consulting %s; "
+                    "488.2 makes it %s after %s (a colon with no mnemonic behind it is an incomplete header wherever it stands)"
+                    % (bool(key[0][0]), list(key[1]), list(key[0][1:]), names[sign], calls, names[want[0]], want[1]),
+                    {"rows": len(rows)})
+    elif stuck or len(rows) < 20:
+        ck.undecided("C13-T9", st, K.loc(f), "the decision table cannot be extracted: %s (%d rows)" % (stuck, len(rows)))
+    else:
+        ck.holds("C13-T9", st, K.loc(f), "%d rows of (colon, mnemonic) outcomes up to %d mnemonics: [:] mnemonic (: mnemonic)*" % (len(rows), depth))
+
+
 def run(ck, fb, tier):
     for cfg in fb.configs:
         ck.config = cfg
@@ -747,6 +856,7 @@ def run(ck, fb, tier):
         rule_t5(ck, prog)
         rule_t6(ck, prog)
         rule_t7(ck, prog)
+        rule_t9(ck, prog, tier)
         rule_t5_detector(ck, prog, S)
     ck.trust("spec/char_classes.json (488.2 section 7 classes and the leniencies of src/scpi.g)",
              "<ctype.h> classifiers by their C-locale definition")
